@@ -3,6 +3,7 @@ package main
 import (
 	"bytes"
 	"fmt"
+	"strings"
 	"sync/atomic"
 
 	"github.com/TheManticoreProject/Manticore/network/smb/smb_v10/types"
@@ -238,6 +239,21 @@ func dirInfoAll(c *vf.Ctx) {
 			v := base
 			v.Name = []byte{byte(x)}
 			vals = append(vals, v)
+		}
+		// OEM bytes that happen to form valid multi-byte UTF-8 (characters != bytes), at either end, every length
+		for _, ch := range []string{"\u00c9", "\u20ac", "\U0001F600", "\u0416"} {
+			for total := len(ch); total <= 12; total++ {
+				v := base
+				v.Name = append(enum.Fill(total-len(ch), 'a'), ch...)
+				vals = append(vals, v)
+				v.Name = append([]byte(ch), enum.Fill(total-len(ch), 'a')...)
+				vals = append(vals, v)
+			}
+			for k := 1; k*len(ch) <= 12; k++ {
+				v := base
+				v.Name = []byte(strings.Repeat(ch, k))
+				vals = append(vals, v)
+			}
 		}
 	}
 	var decodes int64
